@@ -134,4 +134,14 @@ SameFrom(Ti, Tp, lits, i, p, k) ==
   ELSE IF Ti[i].k # Tp[p].k \/ Ti[i].t # Tp[p].t THEN "structure_differs"
   ELSE SameFrom(Ti, Tp, lits, i + 1, p + 1, k)
 SameStatementReason(Ti, Tp, lits) == SameFrom(Ti, Tp, lits, 1, 1, 1)
+
+\* does the literal (its tokens L under engine B) denote the bound value v?  (floats / decimals / dates: not decided here)
+LitDenotes(B, L, v) ==
+  IF "null" \in DOMAIN v /\ v.null THEN Len(L) = 1 /\ L[1].k = "word" /\ UpperStr(L[1].t) = "NULL"
+  ELSE CASE v.t \in {"String", "Char"} -> Len(L) = 1 /\ L[1].k = "str" /\ L[1].f = "" /\ L[1].v = v.v
+         [] v.t = "Bytes" -> Len(L) = 1 /\ (IF B = "pg" THEN L[1].k = "str" /\ PgByteaHex(L[1].v) = v.v ELSE L[1].k = "blob" /\ L[1].v = v.v)
+         [] v.t = "Bool" -> Len(L) = 1 /\ L[1].k = "word" /\ UpperStr(L[1].t) = (IF v.v THEN "TRUE" ELSE "FALSE")
+         [] v.t \in {"TinyInt", "SmallInt", "Int", "BigInt", "TinyUnsigned", "SmallUnsigned", "Unsigned", "BigUnsigned"} ->
+              ConcatAll([i \in DOMAIN L |-> L[i].t]) = v.v /\ \A i \in DOMAIN L : L[i].k \in {"num", "op"}
+         [] OTHER -> TRUE
 =============================================================================
